@@ -7,6 +7,7 @@ import (
 	"crypto/md5"
 	"crypto/rand"
 	"encoding/base64"
+	"encoding/binary"
 	"encoding/hex"
 	"errors"
 	"fmt"
@@ -15,6 +16,7 @@ import (
 	"os/exec"
 	"strings"
 	"sync"
+	"sync/atomic"
 
 	"github.com/welllog/golib/cryptz"
 )
@@ -415,6 +417,42 @@ func refStream(p, secret, salt []byte) []byte {
 	return append(append([]byte("Salted__"), salt...), o...)
 }
 
+const c09CarrySecret = "correct horse battery staple"
+
+var c09Carry struct {
+	once     sync.Once
+	salt, iv []byte
+}
+
+func c09CarrySalt() ([]byte, []byte) {
+	c09Carry.once.Do(func() {
+		var mu sync.Mutex
+		var wg sync.WaitGroup
+		var stop atomic.Bool
+		for w := 0; w < 16; w++ {
+			wg.Add(1)
+			go func(w uint64) {
+				defer wg.Done()
+				salt := make([]byte, 8)
+				for x := w; x < 1<<30 && !stop.Load(); x += 16 {
+					binary.BigEndian.PutUint64(salt, x*0x9e3779b97f4a7c15+1)
+					_, iv := evpRef([]byte(c09CarrySecret), salt)
+					if iv[12] == 0xff && iv[13] == 0xff && iv[14] == 0xff {
+						mu.Lock()
+						if c09Carry.salt == nil {
+							c09Carry.salt, c09Carry.iv = append([]byte{}, salt...), append([]byte{}, iv...)
+						}
+						mu.Unlock()
+						stop.Store(true)
+					}
+				}
+			}(uint64(w))
+		}
+		wg.Wait()
+	})
+	return c09Carry.salt, c09Carry.iv
+}
+
 func c09Secret(t *T) []byte {
 	switch t.R.Intn(6) {
 	case 0:
@@ -598,6 +636,22 @@ func c09Gen(c *Ctx) {
 			t.Try("stream-decrypt", c09Case(9, term, 0, budget, B, 0, msg, secret, nil, nil, c09Plan(t, len(msg), style)), true)
 		}
 	})
+	// E2. the stream cipher's counter: CTR increments the whole 128-bit block, so an IV whose low 32 bits are close to 2^32 carries
+	// into the next word after a few blocks.  The IV is the third MD5 of the key derivation: salts that give an IV ending in
+	// ff ff ff xx are found by search (2^24 trials on average, all cores, once per run), the stream is long enough to cross.
+	if salt, iv := c09CarrySalt(); salt != nil {
+		n := 16*(256-int(iv[15])) + 40
+		c.Note(fmt.Sprintf("counter carry: salt %x gives IV %x for the secret %q; streams of %d bytes cross the 2^32 boundary of its low word", salt, iv, c09CarrySecret, n))
+		c.Each(4, func(i int, t *T) {
+			p := rbytes(t, n+i*7)
+			if i%2 == 0 {
+				t.Try("stream-counter-carry", c09Case(8, 0, 1, 1<<30, 32768, 0, p, []byte(c09CarrySecret), salt, nil, c09Plan(t, len(p), 0)), true)
+			} else {
+				msg := refStream(p, []byte(c09CarrySecret), salt)
+				t.Try("stream-counter-carry", c09Case(9, 0, 0, 1<<30, 32768, 0, msg, []byte(c09CarrySecret), nil, nil, c09Plan(t, len(msg), 0)), true)
+			}
+		})
+	}
 	// C. every single-character corruption and every truncation of every kind of ciphertext
 	nm := c.N(4, 12)
 	type cmsg struct {
